@@ -600,6 +600,7 @@ class DataLinkConnection(TransmissionControlObject):
         if rcvd_pdu.name not in self.DLC_PDU_NAMES:
             self.err("non connection mode pdu on data link connection")
             send_pdu = pdu.FrameReject.from_pdu(rcvd_pdu, flags="W", dlc=self)
+            self.state.SHUTDOWN = True  # close() must not wait in the llc thread
             self.close()
             self.send_queue.append(send_pdu)
             return
